@@ -168,6 +168,12 @@ class MenuConfigState:
         if not parent:
             parent = self.kconf.top_node
         self.shown = self.shown_nodes(parent)
+        if self.cur_menu not in self.shown:
+            # The menu being left is not displayed in its parent (it was reached via
+            # jump-to in show-all mode, or got hidden by a change made inside it):
+            # switch to show-all mode, like jump_to() does, so that it can be highlighted.
+            self.show_all = True
+            self.shown = self.shown_nodes(parent)
         self.sel_node_i = self.shown.index(self.cur_menu)
         self.cur_menu = parent
 
